@@ -116,6 +116,37 @@ impl<'tcx> Cx<'tcx> {
                 }
             }
         }
+        // a promoted array of integers (`[EAGAIN, EWOULDBLOCK].contains(&code)`): its elements
+        if let ty::Ref(_, inner, _) = ty.kind() {
+            if let ty::Array(elem, len) = inner.kind() {
+                if elem.is_integral() {
+                    if let (Some(n), Ok(v)) = (len.try_to_target_usize(self.tcx), c.const_.eval(self.tcx, env, c.span)) {
+                        if let mir::ConstValue::Scalar(rustc_middle::mir::interpret::Scalar::Ptr(ptr, _)) = v {
+                            let (prov, off) = ptr.into_raw_parts();
+                            if let Some(rustc_middle::mir::interpret::GlobalAlloc::Memory(a)) = self.tcx.try_get_global_alloc(prov.alloc_id()) {
+                                let alloc = a.inner();
+                                if let Ok(layout) = self.tcx.layout_of(env.as_query_input(*elem)) {
+                                    let size = layout.size.bytes() as usize;
+                                    let start = off.bytes() as usize;
+                                    let n = n as usize;
+                                    if n <= 64 && size > 0 && start + size * n <= alloc.len() {
+                                        let mut items: Vec<String> = Vec::new();
+                                        for k in 0..n {
+                                            let bytes = alloc.inspect_with_uninit_and_ptr_outside_interpreter(start + k * size..start + (k + 1) * size);
+                                            let mut raw: u128 = 0;
+                                            for (i, b) in bytes.iter().enumerate() { raw |= (*b as u128) << (8 * i); }
+                                            let val: i128 = if elem.is_signed() { rustc_abi::Size::from_bytes(size as u64).sign_extend(raw) as i128 } else { raw as i128 };
+                                            items.push(val.to_string());
+                                        }
+                                        let _ = write!(s, ",\"pa\":[{}]", items.join(","));
+                                    }
+                                }
+                            }
+                        }
+                    }
+                }
+            }
+        }
         if let Const::Unevaluated(u, _) = c.const_ { let _ = write!(s, ",\"path\":{}", js(&self.tcx.def_path_str(u.def))); }
         if let Const::Val(..) = c.const_ {
             // static refs show up as pointers to allocs
